@@ -40,6 +40,11 @@ def dict_event_laws(before, ev):
     ]
 
 
+def mapeq(a, b):
+    k = z3.Const("k!eq", Val)
+    return z3.ForAll([k], a[k] == b[k])
+
+
 def make_dict_self(cx, cls="TraitDict"):
     M = z3.Const("contents", MapV)
     KV, VV = Validator(cx, "key"), Validator(cx, "value")
@@ -190,15 +195,15 @@ class DictMutator(Contract):
                 if rk == "raise":
                     out.append(("post:dict-raises-here", z3.Not(g)))
                 else:
-                    out.append(("post:contents-as-dict", z3.Implies(g, M1 == m_after)))
+                    out.append(("post:contents-as-dict", z3.Implies(g, mapeq(M1, m_after))))
                     if kind == "return":
                         out.append(("post:result-as-dict", z3.Implies(g, self.same_result(cx, info, payload, st, rp, rst))))
             if len(evs) > 1:
                 out.append(("post:at-most-one-event", z3.BoolVal(False)))
             elif len(evs) == 0:
-                out.append(("post:event-when-contents-change", M1 == M0))
+                out.append(("post:event-when-contents-change", mapeq(M1, M0)))
             else:
-                out.append(("post:event-after-mutation", evs[0].at == M1))
+                out.append(("post:event-after-mutation", mapeq(evs[0].at, M1)))
                 out += dict_event_laws(M0, evs[0])
         else:
             alts = []
@@ -208,7 +213,7 @@ class DictMutator(Contract):
                 if rk == "raise":
                     alts.append(z3.And(g, exc_same(payload, rp)))
             out.append(("raise:same-exception-as-dict-or-validator", z3.Or(*alts) if alts else z3.BoolVal(False)))
-            out.append(("raise:contents-unchanged", M1 == M0))
+            out.append(("raise:contents-unchanged", mapeq(M1, M0)))
             out.append(("raise:no-event", z3.BoolVal(len(evs) == 0)))
         return out
 
@@ -339,9 +344,8 @@ class _Update(DictMutator):
             KV, VV = info["KV"], info["VV"]
             return [
                 ("validated-prefix", view["validated_dict"] == F),
-                ("added-are-new-keys", view["added"] == z3.Lambda([y], ite(M[y] == Opt.none, F[y], Opt.none))),
-                ("changed-are-old-values", view["changed"] == z3.Lambda(
-                    [y], ite(z3.And(M[y] != Opt.none, F[y] != Opt.none), M[y], Opt.none))),
+                ("added-are-new-keys", view["added"] == mk_lambda(y, ite(M[y] == Opt.none, F[y], Opt.none))),
+                ("changed-are-old-values", view["changed"] == mk_lambda(y, ite(z3.And(M[y] != Opt.none, F[y] != Opt.none), M[y], Opt.none))),
                 ("prefix-accepted", z3.ForAll([j], z3.Implies(z3.And(0 <= j, j < i), z3.And(
                     KV.ok(info["ks"][j]), VV.ok(info["vs"][j]))))),
             ]
